@@ -572,6 +572,9 @@ class Engine:
             return mk_int(1, 'usize')
         if 'SizedTypeProperties>::IS_ZST' in t:
             return False
+        if 'SizedTypeProperties>::SIZE' in t:
+            # only ever compared with zero (containers are modelled abstractly): the types stored here are not zero-sized
+            return mk_int(8, 'usize')
         if t.startswith('{alloc') or t.startswith('tracing::') or 'CALLSITE' in t:
             return Opaque('static', t)
         segs_ = strip_generics(t.replace('ZeroSized: ', '')).split('::')
